@@ -81,18 +81,18 @@ def compose(items, tier, r):
     frames = by.get("Frame", [])
     for it in frames:
         v = dict(it)
-        v["mut"] = 16 if quick else (-1 if len(it["bytes"]) <= 40 else 120)
+        v["mut"] = 16 if quick else (-1 if len(it["bytes"]) <= 24 else 100)
         vecs.append(v)
     # payloads of several frames: all but the last need an explicit length
     closed = [f for f in frames if f["len"]]
-    for _ in range(6000 if quick else 40000):
+    for _ in range(6000 if quick else 30000):
         k = r.choice([2, 2, 3, 4, 6])
         seq = [r.choice(closed) for _ in range(k - 1)] + [r.choice(frames)]
         bs = [b for f in seq for b in f["bytes"]]
-        vecs.append({"k": "Bytes", "d": ["frames"], "bs": bs, "mut": 4 if quick else 16})
+        vecs.append({"k": "Bytes", "d": ["frames"], "bs": bs, "mut": 4 if quick else 12})
     for it in take(by.get("Tp", []), 9000 if quick else 10 ** 9):
         v = dict(it)
-        v["mut"] = 4 if quick else 30
+        v["mut"] = 4 if quick else 16
         vecs.append(v)
     for it in take(by.get("Pkt", []), 4000 if quick else 10 ** 9):
         v = dict(it)
